@@ -1,0 +1,5 @@
+//go:build !verif
+
+package skiplist
+
+func verifYield(point string) {}
